@@ -3,7 +3,7 @@ import random, re
 from collections import Counter
 import common, e2e, gen, pool, drv
 
-THEOREMS = ["equiv_norm3_sound", "symExec_conc", "norm3_sound", "Cmp.cmp_sound"]
+THEOREMS = ["equiv_norm3_sound", "symExec_conc", "norm3_sound", "Cmp.cmp_sound", "Cmp.searchVal_spec", "Cmp.matchAll_spec"]
 
 SUBST = [("SUB", "ADD"), ("DIV", "SDIV"), ("SDIV", "DIV"), ("MOD", "SMOD"), ("SMOD", "MOD"), ("LT", "SLT"), ("SLT", "LT"),
          ("GT", "SGT"), ("SGT", "GT"), ("LT", "GT"), ("SHR", "SAR"), ("SAR", "SHR"), ("SHL", "SHR"), ("AND", "OR"),
@@ -183,17 +183,17 @@ def run(tier):
         parts = o.split(" ")
         if parts[0].startswith("error"):
             raise common.MachineryError("driver CMP: " + o)
-        ok, target, rest = parts[0], parts[1], parts[2:]
+        ok, target, stores, rest = parts[0], parts[1], parts[2], parts[3:]
         c["cmp-specification-pairs"] += 1
         c["cmp-premises-" + ("hold" if ok == "1" else "fail")] += 1
-        real = [e["target"]] + e["pair_results"]
+        real = [e["target"], e["stores"]] + e["pair_results"]
         real = ["raise" if x == "recursion" else x for x in real]
-        model = [target] + rest
+        model = [target, stores] + rest
         c["cmp-decisions-compared"] += len(real)
         c["cmp-decisions-equal:" + e["target"]] += 1
         if real != model:
             k = next(i for i in range(min(len(real), len(model))) if real[i] != model[i]) if len(real) == len(model) else -1
-            which = "compare_target_stack" if k == 0 else ("compare_variables(%s)" % e["pairs"][k - 1] if k > 0 else "result lists of different length")
+            which = "compare_target_stack" if k == 0 else "compare_storage_userdef_ins" if k == 1 else ("compare_variables(%s)" % e["pairs"][k - 2] if k > 1 else "result lists of different length")
             violations.append({"kind": "checker-differs-from-model", "input": t["a"] + " | " + t["b"], "options": t["opts"], "no_failing_input": True,
                                "what": "correspondence Models/Cmp.lean <-> sfs_verify broken on the specifications of %s | %s (%s): %s gives %s, the model %s "
                                        "(theorem Cmp.cmp_sound is about the model)" % (t["a"], t["b"], t["opts"], which, real[k] if k >= 0 else len(real), model[k] if k >= 0 else len(model)),
